@@ -11,6 +11,7 @@ Terms have the same shapes as mir.Expr nodes; call results are ('call', key, def
 unique site id so that two calls of the same function are different terms.
 """
 import itertools
+import re
 
 from . import mir
 from .mir import callee_info
@@ -347,6 +348,18 @@ class Walker:
                             tup = args[1] if len(args) > 1 else ("agg", "tuple", None, None, [])
                             elems = tup[4] if tup[0] == "agg" and tup[1] == "tuple" else [tup]
                             cargs = [args[0]] + list(elems)
+                        elif c0[0] == "fn" and len(c0) > 2 and isinstance(c0[2], dict):
+                            # a function item passed as a value and invoked: f(args) is a direct call of that function
+                            finfo = callee_info(c0[2])
+                            fcand = self.crate.bodies.get(finfo["def"]) if finfo["def"] else None
+                            tup = args[1] if len(args) > 1 else ("agg", "tuple", None, None, [])
+                            elems = tup[4] if tup[0] == "agg" and tup[1] == "tuple" else [tup]
+                            if fcand is not None and (id(fcand), 0) not in stack and (
+                                    finfo["key"] in self.inline or finfo["base_key"] in self.inline or
+                                    (self.auto_inline and self._auto_inlinable(fcand, stack))):
+                                callee = fcand
+                                cargs = list(elems)
+                                info = finfo
                 if callee is not None:
                     self._inline(callee, cargs, t, body, env, events, stack, depth, cont, info["key"], info["targs"])
                     return
@@ -529,6 +542,12 @@ class Walker:
                 return r
         if f0[0] == "fn" and len(f0) > 2 and isinstance(f0[2], dict):
             info = callee_info(f0[2])
+            d_ = re.sub(r"::<.*?>", "", info["def"] or "")
+            ctor = {"core::option::Option::Some": ("core::option::Option", "Some"),
+                    "core::result::Result::Ok": ("core::result::Result", "Ok"),
+                    "core::result::Result::Err": ("core::result::Result", "Err")}.get(d_)
+            if ctor:
+                return ("agg", "adt", ctor[0], ctor[1], [v])      # a tuple-variant constructor used as a function
             return ("call", info["key"], info["def"], [v], site, info["targs"])
         return ("call", "apply", None, [f, v], site, [])
 
